@@ -370,11 +370,25 @@ package regattaserver
 //@ iface regattaserver.TableService.GetTables
 //@   assumed
 //@   modifies nothing
+// volatile ghost: the receive just made ended the stream regularly (io.EOF)
+//@ ghostfield volatile any.eofseen Bool
 //@ iface regattapb.Maintenance_RestoreServer.Recv
 //@   assumed
 //@   results m, err
 //@   ensures err == nil ==> m != nil
+//@   ensures world.eofseen == (err == io.EOF)
+//@   modifies world.eofseen
+//@ func regattapb.(*RestoreMessage).GetChunk
+//@   assumed
 //@   modifies nothing
+// the uploaded backup is spooled to the end of the stream: success means the client closed the
+// stream regularly - an upload that breaks off is an error, never a (shorter) backup
+//@ func (backupReader).WriteTo
+//@   results n, err
+//@   requires s.stream != nil && w != nil
+//@   ensures [C07.upload.eof+C18] err == nil ==> world.eofseen
+//@   modifies family(G_any_sdata), family(G_any_slen), family(G_any_nmsg), family(G_any_msg), world.eofseen
+//@   loop 0 invariant s.stream != nil && w != nil
 //@ iface regattapb.Maintenance_RestoreServer.SendAndClose
 //@   assumed
 //@   modifies nothing
